@@ -4,12 +4,53 @@ matrix {g++, clang++} x {-O0,-O2,-O3} x {deprecated on, off}: every trace must e
 import json, os, re, subprocess, time
 from concurrent.futures import ThreadPoolExecutor
 from checks.base import *
-import corr, gen_sig
+import corr, gen_sig, gen_expr
 
 RULE = ("generated histories (all profiles) run by every binary of the configuration matrix; the complete trace (invocations, arguments, results, every query) "
         "must equal the model's and hence each other's; non-trivial = trace with >= 1 invocation and >= 1 accumulated or value result; distinct = distinct program text")
 QUICK = ["gcc-O0", "gcc-O3-nodep", "clang-O0-nodep", "clang-O2"]
 ALL = ["gcc-O0", "gcc-O2", "gcc-O3", "clang-O0", "clang-O2", "clang-O3", "gcc-O0-nodep", "gcc-O2-nodep", "gcc-O3-nodep", "clang-O0-nodep", "clang-O2-nodep", "clang-O3-nodep"]
+
+
+EXPR_VARIANTS = {"quick": ["gcc-O3-nodep", "clang-O2"], "thorough": ["gcc-O0", "gcc-O3-nodep", "clang-O2", "clang-O3"]}
+
+
+def expression_part(v, pid, tier, seed, model_exe):
+    import shutil
+    from checks import exprcheck
+    cases = exprcheck.directed_cases("C10", 0) + gen_expr.generate("cfg-%s" % seed, {"quick": 40, "thorough": 400}[tier], 3)
+    for k, c in enumerate(cases):
+        c.idx = k
+    mlines = corr.run_model(model_exe, "expr", [c.model_line() for c in cases])
+    usable = [(c, m) for c, m in zip(cases, mlines) if m.startswith("wt=true") and "ILLFORMED" not in m]
+    out, compared = [], 0
+    per_variant = {}
+    for var in EXPR_VARIANTS[tier]:
+        workdir = os.path.join(BUILD, "cfgexpr-%s-%d" % (var, os.getpid()))
+        try:
+            res, err = exprcheck.build_and_run([c for c, _ in usable], workdir, variant=var, keep_opt=True)
+        finally:
+            shutil.rmtree(workdir, ignore_errors=True)
+        if err:
+            per_variant[var] = "build failed: " + err[-300:]
+            continue
+        results, failures = res
+        n = 0
+        for c, m in usable:
+            il = results.get(c.idx)
+            if il is None or c.idx in failures:
+                continue
+            n += 1
+            if il.startswith("CRASH"):
+                out.append((var, c, m, il, [("crash", "", il)]))
+                continue
+            d = exprcheck.compare("C10", c, m, il) or exprcheck.compare("C11", c, m, il)
+            if d:
+                out.append((var, c, m, il, d))
+        per_variant[var] = n
+        compared += n
+    v.coverage["expressions_across_configurations"] = {"cases": len(usable), "compared_per_configuration": per_variant, "mismatches": len(out)}
+    return out
 
 
 def run(pid, args):
@@ -72,6 +113,13 @@ def run(pid, args):
                        "deprecated_only": info["deprecated_only"] if info else None, "callsig": info["callsig"] if info else None,
                        "exhaustive": False,
                        "explanation": "partial: compilers and optimisers are not modelled; the theorem covers the source-level discipline, the matrix run the binaries that exist here"})
+    # the adaptor expressions (argument evaluation order, moves of temporaries, optimisation of the
+    # forwarding chain) under both compilers at their own optimisation level, against AdaptorModel
+    emism = expression_part(v, pid, tier, seed, model_exe)
+    for k, (var, c, m, il, d) in enumerate(emism[:3]):
+        v.violation("cfg-expr-%s-%d" % (var, k + 1), {"property": pid, "configuration": var, "term": repr(c.term), "rv": c.rv, "kinds": c.kinds, "vals": c.vals,
+                                                     "cpp": gen_expr.to_cpp(c.term), "model": m, "impl": il, "diff": d,
+                                                     "broken": "an adaptor expression behaves differently from the model in configuration %s" % var})
     seen = set()
     for mm in mism:
         key = mm["configuration"]
